@@ -1,0 +1,7 @@
+//go:build verif
+
+package opcua
+
+// VerifSafeAssign exposes the response type check every client call applies to
+// the response it is handed (build tag verif only).
+func VerifSafeAssign(t, ptrT interface{}) error { return safeAssign(t, ptrT) }
